@@ -217,13 +217,14 @@ class RF24:
 
     def open_tx_pipe(self, address: Union[bytes, bytearray]) -> None:
         """Open a data pipe for TX transmissions."""
-        if self._aa & 1:  # pipe 0 may still hold a previous TX address
-            for i, val in enumerate(address):
-                self._pipes[0][i] = val  # type: ignore[assignment, index]
-            self._reg_write_bytes(RX_ADDR_P0, address)
         for i, val in enumerate(address):
             self._tx_address[i] = val
         self._reg_write_bytes(TX_ADDRESS, address)
+        if self._aa & 1:  # pipe 0 may still hold a previous TX address
+            # use the complete TX address in case only some bytes were altered
+            for i, val in enumerate(self._tx_address):
+                self._pipes[0][i] = val  # type: ignore[assignment, index]
+            self._reg_write_bytes(RX_ADDR_P0, self._tx_address)
 
     def close_rx_pipe(self, pipe_number: int) -> None:
         """Close a specific data pipe from RX transmissions."""
